@@ -1208,7 +1208,7 @@ pub fn generate(c: &mut Chooser) -> Scenario {
     prog.outputs.push(GOutput { name: None, optional: false, to: AddrE::Party(sender.to_string()), amount: AssetE::Fees, datum: None });
 
     // mint / burn
-    let mint_kind = g.pick("mint", &["none", "static-asset", "anyasset", "mint+burn", "two-mints", "anyasset-n", "burn-n", "same-asset-twice-n", "mint-n+burn-n-same-asset", "anyasset-policy-by-name"]);
+    let mint_kind = g.pick("mint", &["none", "static-asset", "anyasset", "mint+burn", "two-mints", "anyasset-n", "burn-n", "same-asset-twice-n", "mint-n+burn-n-same-asset", "anyasset-policy-by-name", "static-asset-input-field"]);
     let (minted, burned): (Option<AssetE>, Option<AssetE>) = match mint_kind {
         0 => (None, None),
         1 => {
@@ -1220,6 +1220,14 @@ pub fn generate(c: &mut Chooser) -> Scenario {
         2 => {
             let m = AssetE::AnyAsset(BytesE::Hex(POLICY_B.to_vec()), BytesE::Str("SILVER".into()), IntE::Param("q".into()));
             prog.mints.push(GMint { amount: m.clone(), redeemer: DataE::Int(IntE::Lit(1)), no_redeemer: false });
+            (Some(m), None)
+        }
+        // the argument of an asset call is data wherever the call sits: here it reads a field of an input's datum
+        10 => {
+            let a = ensure_asset_def(&mut prog);
+            ensure_datum_input(&mut prog);
+            let m = AssetE::Tok(a, IntE::InputField("st".into(), 0, "counter".into()));
+            prog.mints.push(GMint { amount: m.clone(), redeemer: DataE::Unit, no_redeemer: false });
             (Some(m), None)
         }
         // the policy of the minted asset given by the name of a `policy` definition (the minted amount also appears
@@ -1375,8 +1383,13 @@ pub fn generate(c: &mut Chooser) -> Scenario {
     }
 
     // references / collateral
-    match g.pick("reference", &["none", "literal", "param", "literal-index-65539", "literal-index-beyond-32-bits"]) {
+    match g.pick("reference", &["none", "literal", "param", "literal-index-65539", "literal-index-beyond-32-bits", "two-outputs-of-one-transaction"]) {
         0 => {}
+        // the field is a set of (transaction, index) pairs: two outputs of one transaction are two members
+        5 => {
+            prog.references.push(("refscript".into(), RefE::Lit(vec![0xEE; 32], 2)));
+            prog.references.push(("refdata".into(), RefE::Lit(vec![0xEE; 32], 5)));
+        }
         1 => prog.references.push(("refscript".into(), RefE::Lit(vec![0xEE; 32], 2))),
         // an output index is a full integer; one the IR cannot hold (32 bits) has to be refused, not cut down
         3 => prog.references.push(("refscript".into(), RefE::Lit(vec![0xEE; 32], 65539))),
